@@ -465,7 +465,7 @@ pub fn run(rep: &mut Report) {
                     Some(j) => j,
                     None => break,
                 };
-                rt.block_on(run_config(&mut local, s, strategy, redirect, thorough));
+                crate::run_guarded!(rt, local, "C20", s, 1_000_000u64, run_config(&mut local, s, strategy, redirect, thorough));
             }
             local
         }));
